@@ -119,4 +119,74 @@ theorem C16_bool_validate (a : Nat) (b : UInt8) (rest : Bytes) :
 /-- non-vacuity: `be::I16` stores −2 as `ff fe`; `le::U32` 0x01020304 as `04 03 02 01` -/
 example : (⟨true, 2, true⟩ : PTy).fromNative (-2) = [0xff, 0xfe] ∧ (⟨true, 2, true⟩ : PTy).inRange (-2) = true := by decide
 example : (⟨false, 4, false⟩ : PTy).fromNative 0x01020304 = [4, 3, 2, 1] := by decide
+/-- every `n`-byte pattern is a value of the native type: `to_native` never leaves the range -/
+theorem C16_toNative_inRange (p : PTy) (hn : 0 < p.n) (stored : Bytes) (hl : stored.length = p.n) :
+    p.inRange (p.toNative stored) = true := by
+  obtain ⟨h1, h2⟩ := pow_half_lt p.n hn
+  have hle : leNat stored < 256 ^ p.n := by have := leNat_lt stored; rwa [hl] at this
+  have hbe : beNat stored < 256 ^ p.n := by have := leNat_lt stored.reverse; simpa [beNat, hl] using this
+  have key : ∀ u : Nat, u < 256 ^ p.n →
+      p.inRange (if p.signed then toSigned p.n u else (u : Int)) = true := by
+    intro u hu
+    by_cases hs : p.signed = true
+    · simp only [PTy.inRange, PTy.lo, PTy.hi, hs, if_true, Bool.and_eq_true, decide_eq_true_eq, toSigned]
+      split <;> constructor <;> omega
+    · have hs' : p.signed = false := by simpa using hs
+      simp only [PTy.inRange, PTy.lo, PTy.hi, hs', Bool.false_eq_true, if_false, Bool.and_eq_true, decide_eq_true_eq]
+      constructor <;> omega
+  unfold PTy.toNative
+  cases hb : p.be
+  · simpa using key _ hle
+  · simpa using key _ hbe
+
+/-- a checked native operator either panics (`none`) or returns a value of the native range, which the portable type stores
+and reads back unchanged -/
+theorem C16_binop_sound (p : PTy) (hn : 0 < p.n) (op : String) (a b v : Int) (h : p.binop op a b = some v) :
+    p.inRange v = true ∧ p.toNative (p.fromNative v) = v := by
+  have hr : p.inRange v = true := by
+    unfold PTy.binop at h
+    generalize (if op = "add" then some (a + b) else if op = "sub" then some (a - b) else if op = "mul" then some (a * b)
+      else if op = "div" then (if b = 0 then none else some (Int.tdiv a b))
+      else if op = "rem" then (if b = 0 then none else if p.inRange (Int.tdiv a b) then some (Int.tmod a b) else none)
+      else none : Option Int) = r at h
+    cases r with
+    | none => cases h
+    | some w =>
+      simp only at h
+      split at h
+      · injection h with h; subst h; assumption
+      · cases h
+  exact ⟨hr, C16_native_roundtrip p hn v hr⟩
+
+/-- `FromPrimitive::from_{u64,i64,usize}`: `Some` exactly for the representable values, and then the stored value reads back as
+that value -/
+theorem C16_fromPrim (p : PTy) (hn : 0 < p.n) (v : Int) :
+    (p.inRange v = true → ∃ bs, p.fromPrim v = some bs ∧ bs.length = p.n ∧ p.toNative bs = v) ∧
+    (p.inRange v = false → p.fromPrim v = none) := by
+  constructor
+  · intro h
+    exact ⟨p.fromNative v, by simp [PTy.fromPrim, h], C16_size p v, C16_native_roundtrip p hn v h⟩
+  · intro h; simp [PTy.fromPrim, h]
+
+/-- `ToPrimitive::to_{u64,i64}` of a stored value: `Some` exactly when the native value is in the target's range, and then it
+is the native value -/
+theorem C16_toPrim (v : Int) :
+    (∀ r, PTy.toU64 v = some r → r = v ∧ 0 ≤ v ∧ v < 2 ^ 64) ∧ (∀ r, PTy.toI64 v = some r → r = v ∧ -(2 ^ 63) ≤ v ∧ v < 2 ^ 63) := by
+  constructor
+  · intro r h
+    unfold PTy.toU64 at h
+    split at h
+    · injection h with h; subst h; refine ⟨rfl, ?_, ?_⟩ <;> omega
+    · cases h
+  · intro r h
+    unfold PTy.toI64 at h
+    split at h
+    · injection h with h; subst h; refine ⟨rfl, ?_, ?_⟩ <;> omega
+    · cases h
+
+/-- unsigned big-endian patterns of one width order like their values when compared as byte strings of numbers — the reason
+the library cannot derive `Ord` on the byte array for the other fifteen types: a little-endian witness where the orders differ -/
+example : (⟨false, 2, false⟩ : PTy).toNative [0x00, 0x01] > (⟨false, 2, false⟩ : PTy).toNative [0xff, 0x00] := by decide
+example : (⟨true, 2, true⟩ : PTy).binop "add" 32767 1 = none ∧ (⟨true, 2, true⟩ : PTy).binop "div" (-32768) (-1) = none ∧
+    (⟨true, 2, true⟩ : PTy).binop "rem" (-32768) (-1) = none ∧ (⟨true, 2, false⟩ : PTy).binop "sub" 0 1 = none := by decide
 end FV.Props
